@@ -1,11 +1,14 @@
 package props
 
 import (
+	"encoding/json"
 	"fmt"
+	mrand "math/rand"
 	"sync"
 	"testing"
 	"time"
 
+	"github.com/btcsuite/btcd/btcec/v2"
 	"github.com/elementsproject/peerswap/swap"
 
 	"verifharness/ref"
@@ -158,6 +161,16 @@ func TestC16(t *testing.T) {
 		h.p.w.Close()
 	})
 	r.Extra["prefix_cuts"] = len(cases)
+	// a scripted taker that answers the announcement once with something unusable and then goes silent
+	var sc []c26Case
+	for _, ch := range []string{"btc", "lbtc"} {
+		for _, ty := range []string{"in", "out"} {
+			for _, b := range []string{"silence", "cancel", "coop-wrong-key", "coop-malformed-key", "coop-wrong-key-twice"} {
+				sc = append(sc, c26Case{ch, ty, b, false}, c26Case{ch, ty, b, true})
+			}
+		}
+	}
+	parallelDo(len(sc)*r.N(1, 8), 8, func(i int) { runC16Scripted(r, r.Seed*617+int64(i)+1, sc[i%len(sc)]) })
 	r.Sample(map[string]any{"case": "lbtc/in victim=alice cut at msg.send:42069", "meaning": "swap-in initiator whose peer dies right when the request leaves; must end SwapCanceled after the negotiation timeout"})
 	r.Require(len(cases) >= 150, fmt.Sprintf("only %d prefix cuts", len(cases)))
 }
@@ -300,4 +313,120 @@ func TestC17(t *testing.T) {
 	r.Extra["exhaustive"] = true
 	r.Extra["exhaustive_note"] = "all (chain, requester role | fee-waiting responder) × restart after crossing 0..14 of the negotiation phase"
 	r.Sample(map[string]any{"case": "btc swap-in requester, restart after crossing 5", "meaning": "initiator restarted while waiting for the agreement; 10 virtual minutes later it must be SwapCanceled and have sent cancel"})
+}
+
+// ---------------------------------------------------------------------------
+// C16 with a scripted (misbehaving) taker: the peer answers once with something unusable and then stops responding
+
+// runC16Scripted drives a real maker (both maker roles, both chains) to the point where its opening transaction is
+// announced; the scripted taker then behaves as c.behave says and goes silent. The drain procedure follows (blocks past
+// the CSV, timers, restarts); the swap must be terminal and the channel released.
+func runC16Scripted(r *Run, seed int64, c c26Case) {
+	rng := mrand.New(mrand.NewSource(seed))
+	w := sim.NewWorld(seed)
+	defer w.Close()
+	m := w.AddNode("alice", sim.DefaultNodeConfig())
+	p := w.AddPeer("mallory")
+	w.LN.OpenChannel("100x1x0", m.ID, p.ID, 5_000_000_000, 5_000_000_000)
+	if m.Start() != nil {
+		r.Inconclusive("start")
+		return
+	}
+	chain := w.BTC
+	if c.chain == "lbtc" {
+		chain = w.LBTC
+	}
+	takerKey, _ := btcec.NewPrivateKey()
+	asset, network := "", ""
+	if c.chain == "lbtc" {
+		asset = hx(sim.PolicyAsset())
+	} else {
+		network = sim.BtcParams.Name
+	}
+	amount := uint64(300_000 + rng.Intn(300_000))
+	var id *swap.SwapId
+	if c.typ == "in" {
+		sm, err, _ := m.SwapIn(p.ID, c.chain, "100x1x0", amount, 100000)
+		if err != nil || sm == nil {
+			r.Inconclusive("swapin failed")
+			return
+		}
+		id = sm.SwapId
+		w.Run()
+		p.Send("alice", ref.MsgSwapInAgreement, &swap.SwapInAgreementMessage{ProtocolVersion: 7, SwapId: id, Pubkey: hx(takerKey.PubKey().SerializeCompressed()), Premium: 5})
+		w.Run()
+	} else {
+		id = swap.NewSwapId()
+		p.Send("alice", ref.MsgSwapOutRequest, &swap.SwapOutRequestMessage{ProtocolVersion: 7, SwapId: id, Asset: asset, Network: network, Scid: "100x1x0", Amount: amount, Pubkey: hx(takerKey.PubKey().SerializeCompressed()), PremiumLimit: 1_000_000})
+		w.Run()
+		ag := p.Take(ref.MsgSwapOutAgreement)
+		if ag == nil {
+			r.Inconclusive("no agreement")
+			return
+		}
+		var a swap.SwapOutAgreementMessage
+		json.Unmarshal(ag.Payload, &a)
+		w.LN.PeerPay(p.ID, a.Payreq)
+		w.Run()
+	}
+	if p.Take(ref.MsgOpeningTxBroadcast) == nil {
+		r.Inconclusive("no announcement")
+		return
+	}
+	switch c.behave {
+	case "cancel":
+		p.Send("alice", ref.MsgCancel, &swap.CancelMessage{SwapId: id, Message: "no"})
+	case "coop-wrong-key":
+		k, _ := btcec.NewPrivateKey()
+		p.Send("alice", ref.MsgCoopClose, &swap.CoopCloseMessage{SwapId: id, Message: "x", Privkey: hx(k.Serialize())})
+	case "coop-malformed-key":
+		p.Send("alice", ref.MsgCoopClose, &swap.CoopCloseMessage{SwapId: id, Message: "x", Privkey: "zz"})
+	case "coop-wrong-key-twice":
+		for i := 0; i < 2; i++ {
+			k, _ := btcec.NewPrivateKey()
+			p.Send("alice", ref.MsgCoopClose, &swap.CoopCloseMessage{SwapId: id, Message: "x", Privkey: hx(k.Serialize())})
+			w.Run()
+		}
+	}
+	w.Run()
+	state := func() string {
+		if rec := m.StoredSwap(id.String()); rec != nil {
+			return string(rec.Current)
+		}
+		return ""
+	}
+	afterPeer := state()
+	// the drain procedure, in logical steps only
+	rounds := 0
+	for ; rounds < 6 && !isTerminal(state()); rounds++ {
+		w.Advance(11 * time.Minute)
+		w.Run()
+		chain.Mine(int(ref.CSV(c.chain, 7)) + 2)
+		w.Run()
+		if c.crash || rounds > 0 {
+			if err := m.Restart(); err != nil {
+				r.Inconclusive("restart: " + err.Error())
+				return
+			}
+			w.Run()
+			chain.Mine(2)
+			w.Run()
+		}
+	}
+	final := state()
+	act := 0
+	if inc := m.Inc(); inc != nil && inc.Svc != nil {
+		act = len(inc.Svc.VerifActiveSwaps())
+	}
+	r.Eval()
+	r.Count("scripted_peer_histories", 1)
+	role := map[string]string{"in": "in/sender", "out": "out/receiver"}[c.typ]
+	r.Seen(fmt.Sprintf("scripted-peer/%s/%s/%s/restart-first=%v/after-peer=%s/final=%s/rounds=%d", c.chain, role, c.behave, c.crash, afterPeer, final, rounds))
+	if !isTerminal(final) {
+		r.Violate("bounded-termination", fmt.Sprintf("C16|stuck|%s|%s/%s|peer=%s", c.chain, role, final, c.behave),
+			fmt.Sprintf("after the drain procedure (6 rounds of timers, blocks past the CSV, restarts) the swap is still %s (it was %s when the peer went silent); case %+v seed %d", final, afterPeer, c, seed), traceOf(w))
+	} else if act != 0 {
+		r.Violate("channel-released", fmt.Sprintf("C16|terminal-but-channel-locked|%s|%s|%s", c.chain, role, final),
+			fmt.Sprintf("swap is terminal but the active-swap map still holds %d entries; case %+v", act, c), traceOf(w))
+	}
 }
